@@ -62,6 +62,20 @@ CASES = [
     ("collapse: format_if collapses an if with an else", "src/formatters/stmt.rs", "    if_node.else_if().is_none()\n        && if_node.else_block().is_none()\n", "    if_node.else_if().is_none()\n", "collapse", "default", "C02.if_guard_is_one_statement"),
     ("collapse: is_block_simple forgets that a last statement excludes other statements", "src/formatters/trivia_util.rs", "    (block.stmts().next().is_none()\n        && block.last_stmt().is_some()", "    (block.last_stmt().is_some()", "collapse", "default", "C02.simple_block_is_one_statement"),
     ("collapse: a function body with a comment in front of `end` is collapsed", "src/formatters/functions.rs", "        || function_body\n            .end_token()\n            .leading_trivia()\n            .any(trivia_util::trivia_is_comment)\n", "", "collapse", "default", "C03.collapsed_function_has_no_comments"),
+    ("bodies: format_while_block returns an empty body", "src/formatters/stmt.rs", "    let block = format_block(ctx, while_block.block(), block_shape);", "    let block = Block::new();", "bodies", "default", "C02.while_keeps_statements"),
+    ("bodies: format_numeric_for swaps start and end", "src/formatters/stmt.rs", "        .with_start(start)\n        .with_start_end_comma(start_end_comma)\n        .with_end(end)", "        .with_start(end)\n        .with_start_end_comma(start_end_comma)\n        .with_end(start)", "bodies", "default", "C02.numeric_for_keeps_bounds"),
+    ("bodies: format_else_if formats the condition of the wrong node", "src/formatters/stmt.rs", "    let singleline_condition = format_expression(ctx, &condition, shape + 7);", "    let singleline_condition = format_expression(ctx, else_if_node.condition(), shape + 7);", "bodies", "default", "ok"),
+    ("bodies: format_repeat_block drops the step of hanging the condition", "src/formatters/stmt.rs", "            hang_expression_trailing_newline(ctx, &condition, shape, None)\n        }\n        false => format_expression(ctx, &condition, shape)\n            .update_trailing_trivia", "            condition.to_owned()\n        }\n        false => format_expression(ctx, &condition, shape)\n            .update_trailing_trivia", "bodies", "default", "ok"),
+    ("collapse: format_function_body collapses whatever fits the parameters", "src/formatters/functions.rs", "    let mut singleline_function = !multiline_params && should_collapse;", "    let mut singleline_function = !multiline_params;", "collapse", "all", "C02.function_body_keeps_statements"),
+    ("collapse: format_function_body keeps the one-line block although it spans lines", "src/formatters/functions.rs", "                singleline_function = false;\n                create_normal_block()", "                block", "collapse", "all", "ok"),
+    ("method call: always one space in front of the arguments", "src/formatters/functions.rs", "            shape,\n            create_function_call_trivia(ctx),\n        )]\n    };", "            shape,\n            Token::new(TokenType::spaces(1)),\n        )]\n    };", "args", "default", "C11.method_call_form"),
+    ("method call: arguments stay on the line of a commented method name", "src/formatters/functions.rs", "        vec![\n            create_newline_trivia(ctx),\n            create_indent_trivia(ctx, shape.increment_additional_indent()),\n        ]\n    } else {\n        vec![trivia_util::separator_or_indent(", "        vec![\n            create_indent_trivia(ctx, shape.increment_additional_indent()),\n        ]\n    } else {\n        vec![trivia_util::separator_or_indent(", "args", "default", "C11.method_call_form"),
+    ("luau: the members of a hung union are formatted without the union mark", "src/formatters/luau.rs", "                                context.mark_contains_union(),\n                                if is_first { shape } else { hanging_shape },", "                                context,\n                                if is_first { shape } else { hanging_shape },", "luau", "all", "C02.luau_hang_loop"),
+    ("luau: the last member of a hung intersection is formatted with the union mark", "src/formatters/luau.rs", "                        context.mark_contains_intersect(),\n                        hanging_shape.reset() + PIPE_LENGTH,", "                        context.mark_contains_union(),\n                        hanging_shape.reset() + PIPE_LENGTH,", "luau", "all", "C02.luau_hang_loop"),
+    ("luau: parentheses around a single type are dropped without asking keep_parentheses", "src/formatters/luau.rs", "} else if types.len() == 1 && !keep_parentheses(types.iter().next().unwrap(), context) {", "} else if types.len() == 1 {", "luau", "all", "C02.luau_type_members_keep_parentheses"),
+    ("luau: the base of an optional type is formatted without the optional mark", "src/formatters/luau.rs", "                context.mark_within_optional().mark_contains_union(),", "                context.mark_contains_union(),", "luau", "all", "C02.luau_type_members_keep_parentheses"),
+    ("luau: union members formatted for the intersection mark", "src/formatters/luau.rs", "                                left,\n                                context.mark_contains_union(),", "                                left,\n                                context.mark_contains_intersect(),", "luau", "all", "C02.luau_type_loop"),
+    ("luau: the type of a variadic is formatted without the variadic mark", "src/formatters/luau.rs", "                context.mark_within_variadic(),\n                shape + 3,", "                context,\n                shape + 3,", "luau", "all", "C02.luau_type_members_keep_parentheses"),
     # a predicate moved into a new helper next to the function: the helper is inlined (gen.InlineHelper) and verified as part of the caller
     ("helper: the sugar decision moved into a helper that forgets the Input exception", FU, [FA_DOC, FA_STR, FA_TAB], [HELPER_BAD + FA_DOC, FA_STR_H, FA_TAB_H], "args", "default", "C11.input_keeps_form"),
     ("harmless: the sugar decision moved into a helper (with a binding and an early return)", FU, [FA_DOC, FA_STR, FA_TAB], [HELPER_OK + FA_DOC, FA_STR_H, FA_TAB_H], "args", "default", "ok"),
